@@ -317,9 +317,9 @@ def r6_bound_is_last_emitted(ctx):
               fa.where(), {'guard_fields': sorted(guard), 'emitted_time_fields': sorted(emitted)})
 
 
-def r7_relative_scheduling(ctx, cfg='A'):
+def r7_relative_scheduling(ctx, cfg='A', rule='C02.R7'):
     """add_event_in(e, d) files e under exactly clock + d: the handler then sees now() == the timestamp the caller asked for"""
-    ctx.set_rule('C02.R7', cfg)
+    ctx.set_rule(rule, cfg)
     P = ctx.progs[cfg]
     f = P.fns.get('des::runtime::Runtime::add_event_in')
     if f is None:
@@ -385,6 +385,11 @@ def run(ctx):
     # (R9) ... and only if the scan window is stepped, never repositioned, and the bound follows the popped event (shared with C01.R5)
     from .C01 import r5_fetch_skeleton
     r5_fetch_skeleton(ctx, rule='C02.R9')
+    # (R10) an event goes to the same-instant FIFO iff its time equals the lower bound, whatever else is stored (shared with C03.R2)
+    from .C03 import r2_zero_container
+    for cfg in [c for c in ('A', 'B') if c in ctx.progs]:
+        r2_zero_container(ctx, cfg, rule='C02.R10')
+    ctx.cfg = 'A'
     r6_bound_is_last_emitted(ctx)
     for cfg in [c for c in ('A', 'B') if c in ctx.progs]:
         r7_relative_scheduling(ctx, cfg)
